@@ -30,9 +30,11 @@ type Plan struct {
 	// is enabled (C07 non-queueing, C18 purge during fetch).
 	Withhold []string `json:"withhold,omitempty"`
 	// InlineStore: store calls complete inline (no parking) - used with unnamed purge.
-	InlineStore bool   `json:"inline_store,omitempty"`
-	Sequential  bool   `json:"sequential,omitempty"` // every op is a barrier
-	Notes       string `json:"notes,omitempty"`
+	InlineStore bool `json:"inline_store,omitempty"`
+	// WithholdStore: store calls complete only when nothing else can move
+	WithholdStore bool   `json:"withhold_store,omitempty"`
+	Sequential    bool   `json:"sequential,omitempty"` // every op is a barrier
+	Notes         string `json:"notes,omitempty"`
 }
 
 type Config struct {
@@ -107,6 +109,9 @@ type Op struct {
 	URI    string      `json:"uri,omitempty"`
 	Header [][2]string `json:"header,omitempty"`
 	Body   string      `json:"body,omitempty"`
+	// Cancellable: the client may go away (its request context is cancelled) at a step the
+	// scheduler chooses
+	Cancellable bool `json:"cancellable,omitempty"`
 	// purge
 	Cache string `json:"cache,omitempty"`
 	Key   string `json:"key,omitempty"`
